@@ -12,7 +12,8 @@
    bijection between models and witnesses, T3 = classical criterion. *)
 From Coq Require Import ZArith List Bool.
 From Cnfgen Require Import Sem Comb Linear IR IRFacts C02Common C02CommonFacts
-  Fam_tseitin Fam_tseitin_Facts Fam_tseitin_Forest Fam_tseitin_Conv Fam_tseitin_Count Fam_coloring Fam_coloring_Facts Fam_domset Fam_domset_Facts
+  Fam_tseitin Fam_tseitin_Facts Fam_tseitin_Forest Fam_tseitin_Conv Fam_tseitin_Count Fam_tseitin_Labels
+  Fam_coloring_Euler Fam_coloring Fam_coloring_Facts Fam_domset Fam_domset_Facts
   Fam_iso Fam_iso_Facts Fam_subgraph Fam_subgraph_Facts Fam_c02_Facts.
 Import ListNotations.
 Open Scope Z_scope.
@@ -142,6 +143,19 @@ Theorem C02_tseitin_model_count : forall n E ch, 0 <= n -> edges_ok n E = true -
 Proof. exact tseitin_model_count_uf. Qed.
 Print Assumptions C02_tseitin_model_count.
 
+(* the component count by label propagation (Fam_tseitin.num_components, n rounds of "both ends of every
+   edge take the smaller label") is the same number, so the count holds exactly as it was first stated
+   (Fam_tseitin.tseitin_model_count_statement, spelled out) *)
+Theorem C02_num_components_uf : forall n E, 0 <= n -> edges_ok n E = true -> num_components n E = uf_components n E.
+Proof. exact num_components_uf. Qed.
+Print Assumptions C02_num_components_uf.
+Theorem C02_tseitin_model_count_statement : forall n E ch, graph_wf n E = true ->
+  (exists a, irs_hold a (tseitin_ir n E ch) = true) ->
+  count_models (tseitin_numvar E) (tseitin_ir n E ch) = 2 ^ (len E - n + num_components n E).
+Proof. exact tseitin_model_count. Qed.
+Print Assumptions C02_tseitin_model_count_statement.
+
+(* the next example only shows the statements are about the right numbers *)
 Example C02_tseitin_count_examples :
   (* triangle, charges (1,1,0): 2^(3-3+1) models; default charge: none *)
   count_models 3 (tseitin_ir 3 [(1,2);(1,3);(2,3)] (Some [true; true; false])) = 2 ^ (3 - 3 + num_components 3 [(1,2);(1,3);(2,3)]) /\
@@ -193,13 +207,25 @@ Proof. exact ec_char. Qed.
 Print Assumptions C02_ec_T1.
 
 (* T3, the documented direction ("satisfiable only on graphs with an even number of edges in each
-   connected component"): a union S of components with an odd number of edges => unsatisfiable.
-   The converse is kept as Fam_coloring.ec_sat_of_even_components_statement and tested in the harness. *)
+   connected component"): a union S of components with an odd number of edges => unsatisfiable. *)
 Theorem C02_ec_unsat_of_odd_component : forall a n E (S : Z -> bool) l,
   edges_ok n E = true -> closed_under_edges S E -> ec_ir n E = Some l ->
   Z.odd (len (filter (fun e => S (fst e)) E)) = true -> irs_hold a l = false.
 Proof. exact ec_unsat_of_odd_component. Qed.
 Print Assumptions C02_ec_unsat_of_odd_component.
+
+(* T3, the converse (Fam_coloring.ec_sat_of_even_components_statement, spelled out): all degrees even and an
+   even number of edges in every union of components => satisfiable (closed trails, coloured alternately) *)
+Theorem C02_ec_sat_of_even_components : forall n E l, graph_wf n E = true -> ec_ir n E = Some l ->
+  (forall S, closed_under_edges S E -> Z.even (len (filter (fun e => S (fst e)) E)) = true) ->
+  exists a, irs_hold a l = true.
+Proof. exact ec_sat_of_even_components. Qed.
+Print Assumptions C02_ec_sat_of_even_components.
+Theorem C02_ec_sat_iff : forall n E l, graph_wf n E = true -> ec_ir n E = Some l ->
+  ((exists a, irs_hold a l = true) <->
+   forall S, closed_under_edges S E -> Z.even (len (filter (fun e => S (fst e)) E)) = true).
+Proof. exact ec_sat_iff. Qed.
+Print Assumptions C02_ec_sat_iff.
 
 (* ------------------------------------------------------------------ *)
 (* dominating set (both encodings), tiling                             *)
